@@ -195,7 +195,7 @@ pub fn run(args: &Args) -> Report {
             }
         }
         // near misses of the longer patterns: exactly one byte changed, at every position
-        for p in pats.iter().filter(|p| p.len() >= 8 && p.len() <= 48).take(6) {
+        for p in pats.iter().filter(|p| p.len() >= 8 && p.len() <= 130).take(6) {
             let mut h = vec![b'.'; 20];
             for j in 0..p.len() {
                 let mut q = p.clone();
@@ -206,6 +206,26 @@ pub fn run(args: &Args) -> Report {
             h.extend_from_slice(p);
             h.extend_from_slice(&[b'.'; 20]);
             hays.push(h);
+        }
+        // near misses of long patterns at every alignment of the candidate in memory (a long
+        // confirmation may step to a word boundary first): changed byte near either end
+        let mut align_hays: Vec<Vec<u8>> = vec![];
+        for p in pats.iter().filter(|p| p.len() >= 33 && p.len() <= 130).take(3) {
+            for shift in 0..8usize {
+                let mut h = vec![b'.'; 24 + shift];
+                for j in (0..p.len()).filter(|&j| j < 20 || j + 12 >= p.len()) {
+                    let mut q = p.clone();
+                    q[j] = if q[j] == b'_' { b'-' } else { b'_' };
+                    h.extend_from_slice(&q);
+                    // keep every candidate at the same alignment class
+                    while (h.len() - shift) % 8 != 0 {
+                        h.push(b'.');
+                    }
+                }
+                h.extend_from_slice(p);
+                h.extend_from_slice(&[b'.'; 9]);
+                align_hays.push(h);
+            }
         }
         for kind in [Kind::LF, Kind::LL] {
             for (vi, &var) in VARS.iter().enumerate() {
@@ -222,6 +242,9 @@ pub fn run(args: &Args) -> Report {
                 };
                 rep.count(&format!("built[{:?}]", var), 1);
                 let _ = vi;
+                for h in &align_hays {
+                    check(&rep, var, kind, pats, &s, h, 0, h.len());
+                }
                 // the systematic placements: whole haystack, and with the first / last byte cut off
                 for h in &sys_hays {
                     check(&rep, var, kind, pats, &s, h, 0, h.len());
